@@ -172,6 +172,13 @@ pub fn nest_source(kind: usize, depth: usize, rng: &Rng, d: &Delims) -> String {
                 "{% set a = [x for x in y if x] %}{% continue %}", "{% for a in b %}{% endfor %}{% continue %}", "{% for a in b %}{% else %}{% break %}{% endfor %}",
                 "{% component C() %}{{ [x for x in y] }}{% continue %}{% endcomponent C %}", "{% for a in b %}{% component D() %}{% break %}{% endcomponent D %}{% endfor %}",
                 "{% for a in [x for x in y] %}{% endfor %}{% break %}", "{% filter upper %}{% continue %}{% endfilter %}", "{% block b %}{% break %}{% endblock %}",
+                // whitespace-control markers next to things made of dashes
+                "{%--%}", "{{--1}}", "{{- -1 -}}", "{{- -}}", "{#--#}", "{#- -#}", "{%- raw -%}-{%- endraw -%}", "-", "---", "{{-1}}", "{{ 1 -}}-{{- 1 }}", "{%-if true-%}-{%-endif-%}", "{{--}}", "{%-%}",
+                // unknown and legacy tag names, stray closers, empty tags
+                "{% macro m() %}x{% endmacro %}", "{% endmacro %}", "{% import \"a\" as b %}", "{% call m() %}", "{% spaceless %}x{% endspaceless %}", "{% now %}", "{% verbatim %}{% endverbatim %}", "{% load x %}",
+                "{% with x=1 %}{% endwith %}", "{% end %}", "{% endfor %}", "{% endif %}", "{% endblock %}", "{% endblock b %}", "{% endfilter %}", "{% endset %}", "{% endcomponent %}", "{% endraw %}", "{% else %}", "{% elif x %}",
+                "{% if a %}{% endfor %}", "{% for a in b %}{% endif %}", "{% block b %}{% endfilter %}", "{% true %}", "{% 1 %}", "{% in %}", "{%%}", "{% - %}", "{%- -%}", "{% if %}", "{% for %}", "{% set %}", "{% block %}", "{% filter %}",
+                "{% component %}", "{% extends %}x", "{% If x %}{% EndIf %}", "{% \u{e9}l\u{e9}ment %}", "{% super() %}", "{% body %}", "{{ }}", "{{- -}}", "{# #}", "{#-#}",
                 // component parameter defaults and annotations of every literal kind, signed
                 "{% component D1(x=-1) %}{% endcomponent D1 %}", "{% component D2(x=-\"a\") %}{% endcomponent D2 %}", "{% component D3(x=-true) %}{% endcomponent D3 %}", "{% component D4(x=-none) %}{% endcomponent D4 %}",
                 "{% component D5(x=-[1]) %}{% endcomponent D5 %}", "{% component D6(x: map = -{}) %}{% endcomponent D6 %}", "{% component D7(x=--1) %}{% endcomponent D7 %}", "{% component D8(x=- 1.5) %}{% endcomponent D8 %}",
@@ -215,7 +222,8 @@ pub fn nest_source(kind: usize, depth: usize, rng: &Rng, d: &Delims) -> String {
                 "18446744073709551616", "340282366920938463463374607431768211456", "00012", "1.", ".5", "1.2.3", "1e5", "1E-5", "1_000", "0x1F",
                 "1.7976931348623157e309", "0.000000000000000000000000000000000000000000001", "123456789012345678901234567890.123456789012345678901234567890",
                 "a1.b2", "a.1", "a.1.2", "a1b2c3", "1a", "\"it's `x`\"", "'say \"hi\" `x`'", "`both ' and \"`", "\"ends with backslash\\\"", "\"\\",
-                "\"unterminated", "'\u{e9}\\'", "-", "--1", "- -1", "not not true", "1 -", "1 +", "(", ")", "1 2", "a b", "a..b", "a.", ".a", "a[", "a[]", "a[:]", "a[::]", "a?.", "a?[",
+                "\"unterminated", "'\u{e9}\\'", "-", "--1", "- -1", "not not true", "1e", "1e+", "1e-", "1e999", "1E+400", "1..2", "1...2", "0b101", "0o17", "0X1f", "1__0", "_1", "1_", "a.1e5", "a.0x1", "1\u{e9}", "1\u{1F389}", "1.\u{e9}", "1e5e5", "1.5.5e1", "01.10", "9e18", "9223372036854775807.0", "-0", "-0.0", "+1", "1 000",
+                "1234567890123456789012345678901234567890123456789012345678901234567890123456789012345678901234567890123456789012345678901234567890123456789012345678901234567890123456789012345678901234567890123456789012345678901234567890123456789012345678901234567890123456789012345678901234567890123456789012345678901234567890123456789012345678901234567890123456789012345678901234567890123456789012345678901234567890", "\u{e9}t\u{e9}", "\u{65e5}\u{672c}.x", "\u{df}", "\u{1c5}", "a\u{301}b", "a\u{200d}b", "_", "__tera", "__tera_context", "a._b", "a.9z", "True", "NONE", "In", "nOt x", "a\u{e9}", "x\u{1F389}", "a.\u{e9}", "a[\u{e9}]", "\u{feff}a", "a\u{a0}b", "1 -", "1 +", "(", ")", "1 2", "a b", "a..b", "a.", ".a", "a[", "a[]", "a[:]", "a[::]", "a?.", "a?[",
             ];
             if rng.chance(1, 3) {
                 // a string literal assembled from escape pieces: valid and invalid escapes, a
@@ -555,10 +563,17 @@ pub fn execute(sc: &DiskScenario, stats: &mut Stats) -> Outcome {
         }
     }
     stats.inc("corpus_files");
-    if base.add_raw_templates(sc.base.iter().map(|(n, s)| (n.as_str(), s.as_str()))).is_err() {
-        stats.inc("worlds_rejected");
-        // still useful: register into an empty engine
-        base = new_tera(&sc.config);
+    match catch(|| base.add_raw_templates(sc.base.iter().map(|(n, s)| (n.as_str(), s.as_str())))) {
+        Err(p) => {
+            out.violations.push(Violation::new("C06", "panic-in-registration", format!("base world: {}", p)));
+            return out;
+        }
+        Ok(Err(_)) => {
+            stats.inc("worlds_rejected");
+            // still useful: register into an empty engine
+            base = new_tera(&sc.config);
+        }
+        Ok(Ok(())) => {}
     }
     let ctx = sc.context.to_context();
     let base_fp = match light_fp(&base, &ctx) {
